@@ -94,7 +94,7 @@ Section Marshal.
     | StList _ => MErr                                                (* line 24: not a slice *)
     | StNamed n =>
         match lookup n (types S) with
-        | Some (NScalar _ _ _) => marshal_scalar v                    (* line 19-21 *)
+        | Some (NScalar _ _ _ _) => marshal_scalar v                    (* line 19-21 *)
         | Some (NEnum vals _ _) => enum_coerce_result vals v          (* line 52-53 *)
         | Some (NInput _ _ _ _) => MErr                               (* line 37-43: no / failing ResultCoercion *)
         | _ => MErr                                                   (* line 56-58 *)
